@@ -19,16 +19,17 @@ CONSTANTS TopSeq,        \* top-level commands in the order of their cmd-start
 
 Trace == ndJsonDeserialize("pipeline_trace.ndjson")
 
-VARIABLES l,
-          keyOf          \* [<<pkg, cfg>> -> GarbleActionID] as first seen (KeyStable)
-tvars == <<allvars, l, keyOf>>
+VARIABLES l
+tvars == <<allvars, l>>
 
-TraceInit == FullInit /\ l = 1 /\ keyOf = <<>>
+TraceInit == FullInit /\ l = 1
 
 E == Trace[l]
 Ev(e) == l <= Len(Trace) /\ E.ev = e /\ l' = l + 1
 K == <<E.t, E.p, E.tool>>
-KeepKey == UNCHANGED keyOf
+KeepKey == TRUE
+(* every event that names a cache key names the one the command first used for that package (KeyStable) *)
+SameKey(t, p) == E.key = CfgOf[t][p]
 
 TCmdStart == Ev("cmd-start") /\ CmdStart(E.t) /\ KeepKey
 TShared == Ev("shared-created") /\ SharedCreate(E.t) /\ E.dir = DirName[E.t] /\ KeepKey
@@ -52,11 +53,9 @@ TKidStart == Ev("toolexec-start") /\ E.tool # "link" /\ KidStart(K) /\ kpc'[K] =
 TCompileStart ==
   /\ Ev("compile-start") /\ kpc[K] = "started"
   /\ (E.obf <=> E.p \in ObfPkgs)
-  /\ LET kk == Key(E.t, E.p) IN
-       IF kk \in DOMAIN keyOf THEN keyOf[kk] = E.key /\ KeepKey
-       ELSE keyOf' = keyOf @@ (kk :> E.key)
+  /\ SameKey(E.t, E.p)
   /\ UNCHANGED allvars
-TCacheGet == /\ Ev("pkgcache-get") /\ CacheGet(K)
+TCacheGet == /\ Ev("pkgcache-get") /\ CacheGet(K) /\ SameKey(E.t, E.p)
              /\ (ColdGk => (E.hit <=> Key(E.t, E.p) \in gkeys))
              /\ (~ColdGk /\ E.hit => kpc'[K] = "loaded")
              /\ KeepKey
@@ -66,7 +65,7 @@ TCacheGetWarmHit ==
   /\ gkeys' = gkeys \cup {Key(E.t, q) : q \in Facts(E.p)}
   /\ kpc' = [kpc EXCEPT ![K] = "loaded"]
   /\ UNCHANGED <<tpc, texit, env, dirs, created, removed, gocache, akeys, named, wrotein, linked>> /\ LinkerUnchanged /\ KeepKey
-TCacheDep == /\ Ev("pkgcache-dep") /\ kpc[K] = "computing" /\ E.q \in Closure(E.p)
+TCacheDep == /\ Ev("pkgcache-dep") /\ kpc[K] = "computing" /\ E.q \in Closure(E.p) /\ SameKey(E.t, E.q)
              /\ UNCHANGED allvars /\ KeepKey
 TCacheDepHit == /\ Ev("pkgcache-dep-hit") /\ kpc[K] = "computing"
                 /\ IF ColdGk \/ Key(E.t, E.q) \in gkeys
@@ -74,7 +73,7 @@ TCacheDepHit == /\ Ev("pkgcache-dep-hit") /\ kpc[K] = "computing"
                      ELSE /\ gkeys' = gkeys \cup {Key(E.t, r) : r \in Facts(E.q)}
                           /\ UNCHANGED <<tpc, texit, env, dirs, created, removed, kpc, gocache, akeys, named, wrotein, linked>> /\ LinkerUnchanged
                 /\ KeepKey
-TCachePut == Ev("pkgcache-put") /\ CachePut(K, E.q) /\ KeepKey
+TCachePut == Ev("pkgcache-put") /\ CachePut(K, E.q) /\ SameKey(E.t, E.q) /\ KeepKey
 TAsmPut == Ev("asmnames-put") /\ AsmNamesPut(K) /\ KeepKey
 TAsmGet == Ev("asmnames-get") /\ AsmLoaded(K) /\ K \in named' /\ KeepKey
 (* the path of every written file lies under the writer's own shared directory *)
@@ -109,7 +108,7 @@ TUnlockFailed == /\ Ev("link-unlock-failed") /\ lock = E.t
 
 TKill == Ev("kill") /\ PKill(E.t) /\ KeepKey
 
-Silent == /\ l <= Len(Trace) /\ UNCHANGED <<l, keyOf>>
+Silent == /\ l <= Len(Trace) /\ UNCHANGED l
           /\ \/ \E lp \in Procs : (Patch(lp) \/ StampStart(lp)) /\ PUnch
              \/ \E k \in Kids : AsmLoaded(k) /\ named' = named /\ E.ev \in {"tool-run", "write-source"} /\ K = k
 
